@@ -268,8 +268,17 @@ class PlainSpec(Base):
         from clikit.formatter.plain_formatter import PlainFormatter
         from clikit.io.output_stream.buffered_output_stream import BufferedOutputStream
         st = State()
-        st.stream = BufferedOutputStream()
-        st.out = Output(st.stream, PlainFormatter()) if self.formatter == "plain" else Output(st.stream)
+        if self.formatter == "plain-on-ansi-stream":
+            # a terminal-like stream that could take control codes, with a formatter that disables them
+            # (what --no-ansi selects on a tty): the output is undecorated, its sections must degrade all the same
+            class AnsiCapable(BufferedOutputStream):
+                def supports_ansi(self):
+                    return True
+            st.stream = AnsiCapable()
+            st.out = Output(st.stream, PlainFormatter())
+        else:
+            st.stream = BufferedOutputStream()
+            st.out = Output(st.stream, PlainFormatter()) if self.formatter == "plain" else Output(st.stream)
         st.secs = []
         st.model = []
         st.all = ""
@@ -343,6 +352,7 @@ def main():
         xdepth = 3
     runs.append(("plain-PlainFormatter", PlainSpec(3, CORE_KINDS + [extra], "plain"), 6))
     runs.append(("plain-NullFormatter", PlainSpec(3, CORE_KINDS, "null"), 6))
+    runs.append(("plain-PlainFormatter-on-ansi-capable-stream", PlainSpec(3, CORE_KINDS, "plain-on-ansi-stream"), 6))
     tot_t = 0
     all_keys = set()  # the parts overlap (same fingerprint function): states are counted once, in the union
     all_closed = True
